@@ -12,7 +12,7 @@ RULE = (
     'against reference comprehensions on the recorded dictionaries. Non-trivial = a restart or step-size change happened; '
     'distinct = distinct event-log digest.'
 )
-COMPONENTS_REAL = ['core/hooks.Hooks', 'helpers/stats_helper', 'DefaultHooks, LogWork, LogSDCIterations, LogSolution, LogRestarts, LogStepSize, LogGlobalErrorPostStep, LogLocalErrorPostStep, CPUTimings', 'controller_nonMPI + BasicRestarting + SpreadStepSizes + limiters']
+COMPONENTS_REAL = ['core/hooks.Hooks', 'helpers/stats_helper', 'DefaultHooks, LogWork, LogSDCIterations, LogSolution, LogRestarts, LogStepSize, LogGlobalErrorPostStep, LogLocalErrorPostStep, LogEmbeddedErrorEstimate(PostIter), CPUTimings', 'controller_nonMPI + BasicRestarting + SpreadStepSizes + limiters']
 COMPONENTS_STUB = ['restart requests / step-size proposals / convergence verdicts are scripted (same injectors as C06/C07/C09)']
 ASSUMPTIONS = ['timing_* records and the internal _recomputed markers are excluded from collision and per-step checks', 'work counters checked for level 0 of the 1-dof problem (rhs evaluations)']
 PROBES = ['restart_at_later_slot', 'same_step_restarted_twice', 'two_steps_same_end_time', 'step_size_changed', 'run_aborted_ConvergenceError']
@@ -42,6 +42,11 @@ def generate(seed, tier, index):
     if abs(sc['config']['run']['t0']) > 10 or abs(sc['config']['run']['Tend']) > 10 or sc.get('axis_kind') == 'adaptive' or sc['faults'].get('dtnew'):
         # relative errors against an exact solution that underflows to 0 are the workload's fault, not pySDC's
         sc['config']['hooks'] = [h for h in sc['config']['hooks'] if 'Error' not in h]
+    if r.random() < 0.3:
+        # further shipped hooks in the user's list, at a drawn position (subclasses of hooks that convergence controllers register themselves)
+        extra = r.choice([['LogEmbeddedErrorEstimatePostIter'], ['LogEmbeddedErrorEstimatePostIter', 'LogEmbeddedErrorEstimate'], ['LogEmbeddedErrorEstimate']])
+        for h in extra:
+            sc['config']['hooks'].insert(r.randint(0, len(sc['config']['hooks'])), h)
     sc['spy_stats'] = True
     sc['oracle_seed'] = r.randrange(1 << 30)
     return sc
